@@ -351,6 +351,8 @@ def gen_candidates(run, g, per_class):
                             ("pcre", "^a+$"), ("sigma", "title: t"), ("suricata", "alert ip any any -> any any (sid:2;)")):
                 x = dict(g.obj(cid, 0, {"safe": True}, optional_p=rng.choice([0.0, 0.5])))
                 x["pattern_type"], x["pattern"] = pt, pat
+                x.setdefault("valid_from", "2016-01-01T00:00:00Z")
+                x.pop("valid_until", None)
                 x.pop("pattern_version", None)
                 if rng.random() < 0.4:
                     x["pattern_version"] = rng.choice(["3.0", "4.2.1", "2.0"])
